@@ -98,6 +98,8 @@ def ident_to_str(ident: str, allow_num: bool=False) -> str:
 _WEAKER_THAN_NOT = frozenset({'OR', 'AND', 'UNION', 'EXCEPT', 'INTERSECT'})
 # Operators that bind tighter than unary minus; `{` stands for a shape.
 _TIGHTER_THAN_UMINUS = frozenset({'^', '{'})
+# Type operators; of all prefix operators only INTROSPECT reads past them.
+_TYPE_OPS = frozenset({'|', '&'})
 
 
 def _skip_empty_shapes(node: qlast.Base) -> qlast.Base:
@@ -124,7 +126,7 @@ def _prefix_swallows_op(node: qlast.Base, op: str) -> bool:
         node = _skip_empty_shapes(node)
         if isinstance(node, qlast.UnaryOp):
             unary_op = str(node.op).upper()
-            if unary_op == 'NOT':
+            if unary_op == 'NOT' and op not in _TYPE_OPS:
                 return op not in _WEAKER_THAN_NOT
             elif op in _TIGHTER_THAN_UMINUS:
                 # Unary +, -, EXISTS and DISTINCT.
@@ -144,6 +146,8 @@ def _prefix_swallows_op(node: qlast.Base, op: str) -> bool:
         elif isinstance(node, qlast.DetachedExpr):
             node = node.expr
         elif isinstance(node, qlast.Introspect):
+            if op in _TYPE_OPS:
+                return True
             node = node.type
         elif isinstance(node, qlast.Constant):
             return (
@@ -637,9 +641,10 @@ class EdgeQLSourceGenerator(codegen.SourceGenerator):
     def visit_TypeOp(self, node: qlast.TypeOp) -> None:
         if node.name is not None:
             self.write(ident_to_str(node.name), ': ')
+        op = str(node.op).upper()
         self.write('(')
-        self.visit(node.left)
-        self.write(' ' + str(node.op).upper() + ' ')
+        self._visit_left_operand(node.left, op)
+        self.write(' ' + op + ' ')
         self.visit(node.right)
         self.write(')')
 
